@@ -8,7 +8,7 @@
 //!   tree  = pre-order events of the implementation's tree: `S<kind>` node start, `T` token, `E` node end
 //!           (empty when the parser panicked)
 //!   repl  = replacement requests `index:hextext` (token index in textual order), comma separated
-//! impl_out: per case  `flags|raw|stream|offsets|errors|identity|repl`
+//! impl_out: per case  `flags|raw|stream|offsets|errors|identity|repl|panic`  (panic = location and message of the first panic)
 //!   flags    = letters of violated oracle clauses (see `oracle`), `-` if none
 //!   raw      = tokens of `bytes.tokenize()`:            `kind,texthex,trivia,err` joined by `;`
 //!   stream   = tokens of `TokenStream::from(bytes)` (after merge_bit_string_literals), same format
@@ -29,6 +29,13 @@ use vhdl_syntax::syntax::rewrite::{RewriteAction, TokenRewrite, TokenRewriteActi
 use vhdl_syntax::syntax::AstNode;
 use vhdl_syntax::tokens::tokenizer::{LexErr, LexErrKind, LexErrPos, Tokenize, UnterminatedKind};
 use vhdl_syntax::tokens::{Token, TokenKind, TokenStream, TriviaPiece};
+
+static LAST_PANIC: std::sync::Mutex<String> = std::sync::Mutex::new(String::new());
+
+fn take_panic() -> String {
+    let mut g = LAST_PANIC.lock().unwrap_or_else(|e| e.into_inner());
+    std::mem::take(&mut *g)
+}
 
 fn hex(bs: &[u8]) -> String {
     let mut s = String::with_capacity(bs.len() * 2);
@@ -81,7 +88,18 @@ fn piece_str(p: &TriviaPiece) -> String {
         TriviaPiece::NonBreakingSpaces(n) => format!("N{}", n),
         TriviaPiece::LineComment(c) => format!("c{}", hex(c.as_bytes())),
         TriviaPiece::BlockComment(c) => format!("b{}", hex(c.as_bytes())),
-        TriviaPiece::UnterminatedBlockComment(c) => format!("u{}", hex(c.as_bytes())),
+        // `UnterminatedBlockComment` (repair of F10) is recognised through Debug so that this harness also builds
+        // against a tree without that variant
+        other => {
+            let d = format!("{:?}", other);
+            let mut w = Vec::new();
+            other.write_to(&mut w).unwrap();
+            if d.starts_with("UnterminatedBlockComment") {
+                format!("u{}", hex(&w[2.min(w.len())..]))
+            } else {
+                format!("?{}", hex(&w))
+            }
+        }
     }
 }
 
@@ -217,6 +235,7 @@ const REPL_TEXTS: [&[u8]; 4] = [b"zz", b"", b"\"a b\"", b"Q_9\xe9"];
 /// Runs the implementation on one input; returns (case line, impl line).
 fn run_case(input: &[u8], rng: &mut Rng, fixed_repl: Option<&str>) -> (String, String) {
     let mut flags = String::new();
+    take_panic();
     // ---- tokenizer ----
     let inp = input.to_vec();
     let raw = catch_unwind(AssertUnwindSafe(|| inp.as_slice().tokenize().collect::<Vec<_>>()));
@@ -408,7 +427,7 @@ fn run_case(input: &[u8], rng: &mut Rng, fixed_repl: Option<&str>) -> (String, S
     }
     (
         format!("{}|{}|{}", dec(input), events, repl_req),
-        format!("{}|{}|{}|{}|{}|{}|{}", flags, raw_s, stream_s, offsets, errors, identity, repl_res),
+        format!("{}|{}|{}|{}|{}|{}|{}|{}", flags, raw_s, stream_s, offsets, errors, identity, repl_res, take_panic()),
     )
 }
 
@@ -491,7 +510,8 @@ fn gen_random(rng: &mut Rng, corpus: &[Vec<u8>]) -> Vec<u8> {
             }
             let base = rng.pick(corpus);
             let start = rng.below(base.len());
-            let len = 20 + rng.below(if rng.chance(1, 8) { 1500 } else { 300 });
+            let maxlen = if rng.chance(1, 8) { 1500 } else { 300 };
+            let len = 20 + rng.below(maxlen);
             let end = (start + len).min(base.len());
             let mut s = base[start..end].to_vec();
             let muts = rng.below(6);
@@ -538,7 +558,29 @@ fn main() {
     let n: usize = args[3].parse().unwrap();
     let cases_path = args[4].clone();
     let impl_path = args[5].clone();
-    std::panic::set_hook(Box::new(|_| {}));
+    std::panic::set_hook(Box::new(|info| {
+        let loc = info.location().map(|l| format!("{}:{}", l.file(), l.line())).unwrap_or_default();
+        let msg = if let Some(s) = info.payload().downcast_ref::<&str>() {
+            s.to_string()
+        } else if let Some(s) = info.payload().downcast_ref::<String>() {
+            s.clone()
+        } else {
+            String::new()
+        };
+        // call site inside the parser productions (first such frame), for precise known-finding matching
+        let bt = std::backtrace::Backtrace::force_capture().to_string();
+        let site = bt
+            .lines()
+            .filter_map(|l| l.find("productions::").map(|i| &l[i..]))
+            .next()
+            .map(|l| l.split("::").filter(|p| !p.starts_with('<') && !p.starts_with("impl") && !p.contains('>')).collect::<Vec<_>>().join("::"))
+            .unwrap_or_default();
+        let text: String = format!("{} {} site={}", loc, msg, site).chars().map(|c| if c == '|' || c == '\n' || c == '\r' { ' ' } else { c }).take(300).collect();
+        let mut g = LAST_PANIC.lock().unwrap_or_else(|e| e.into_inner());
+        if g.is_empty() {
+            *g = text;
+        }
+    }));
     // deep recursive-descent on nested input: give the worker a large stack
     let child = std::thread::Builder::new()
         .stack_size(1 << 30)
